@@ -832,11 +832,14 @@ def feedLines (cfg : Cfg) : List Msg → St → St
 def drvStart (cfg : Cfg) (s : St) : St :=
   flush (drvConnect cfg none { s with drv := { s.drv with attempt := s.drv.attempt + 1, scheduled := false }, ev := [], wire := [] })
 
+/-- the head of `SocketDriver.run()`: the scheduled reconnect, if one is scheduled and due -/
+def drvDue (cfg : Cfg) (due : Bool) (s : St) : St :=
+  if s.drv.scheduled && due then realReconnect cfg false none (event (.reconnect false none) s) else s
+
 /-- one `SocketDriver.run()`: the scheduled reconnect if it is due, then (when connected) flush, read the
 lines of one recv(), flush.  `now` is the clock, `due` = "`now > nextReconnectTime`". -/
 def drvRun (cfg : Cfg) (now : Nat) (due : Bool) (lines : List Msg) (s : St) : St :=
-  let s0 := { s with now := now, ev := [], wire := [] }
-  let s1 := if s0.drv.scheduled && due then realReconnect cfg false none (event (.reconnect false none) s0) else s0
+  let s1 := drvDue cfg due { s with now := now, ev := [], wire := [] }
   if s1.drv.connected then flush (feedLines cfg lines (flush s1)) else s1
 
 end C08
